@@ -34,6 +34,7 @@ static void p_terms()
 
 int main(int argc, char** argv)
 {
+    mallopt(M_PERTURB, 0xA5);
     static const char* sites = "execution/algorithms|execution_base/(any_sender|operation_state|receiver|sender)|_Sp_counted_base|intrusive_ptr|atomic_count";
     static const char* focus = "F-site: all atomics of the adaptor headers, any_sender, reference counts; all pthread operations";
     static const pmc_spec specs[] = {
